@@ -1,19 +1,55 @@
 //! C01 — parallel execution equals in-order revm (outcomes and bundle).
 
 use super::*;
-use crate::families::blocks;
+use crate::families::{blocks, general, sweep};
 use revm_primitives::hardfork::SpecId;
 
-pub fn jobs(tier: Tier) -> Vec<Job> {
+pub fn sweep_jobs(family: &'static str, max_len: usize, specs: &[SpecId], workers: &[usize], nonce_modes: &[bool], bound: usize, filter3: bool) -> Vec<Job> {
+    let db = general::std_world();
+    let templates = general::templates();
     let mut v = Vec::new();
-    let spec = SpecId::CANCUN;
-    let deep = [
+    for seq in sweep::sequences(templates.len(), max_len) {
+        if seq.len() >= 2 && !sweep::shares_tag(&templates, &seq) {
+            continue;
+        }
+        if seq.len() >= 3 && filter3 {
+            // length-3 blocks: require a chain of conflicts (first-second and second-third)
+            if !(sweep::shares_tag(&templates, &seq[0..2]) && sweep::shares_tag(&templates, &seq[1..3])) {
+                continue;
+            }
+        }
+        for &spec in specs {
+            let Some(mut case) = sweep::build_case(family, spec, &db, &templates, &seq) else { continue };
+            for &dn in nonce_modes {
+                case.disable_nonce_check = dn;
+                if dn {
+                    case.name = format!("{}:nononce", case.name);
+                }
+                for &w in workers {
+                    if seq.len() == 1 && w > 1 {
+                        continue;
+                    }
+                    v.push(pipeline_job(family, &case, &RunCfg::parallel(w), COARSE, bound, false));
+                }
+            }
+        }
+    }
+    v
+}
+
+pub fn deep_blocks(spec: SpecId) -> Vec<Case> {
+    vec![
         blocks::nonce_chain(spec, 3),
         blocks::funding_chain(spec, 3),
         blocks::incr_same_slot(spec, 3),
         blocks::indirect_chain(spec, 3),
-    ];
-    for c in &deep {
+    ]
+}
+
+pub fn jobs(tier: Tier) -> Vec<Job> {
+    let mut v = Vec::new();
+    let spec = SpecId::CANCUN;
+    for c in &deep_blocks(spec) {
         let run = RunCfg::parallel(2);
         match tier {
             Tier::Quick => {
@@ -24,6 +60,24 @@ pub fn jobs(tier: Tier) -> Vec<Job> {
                 v.push(pipeline_job("c01-depth", c, &run, COARSE, 3, true));
                 v.push(pipeline_job("c01-depth", c, &run, FINE, 2, true));
             }
+        }
+    }
+    match tier {
+        Tier::Quick => {
+            v.push(pipeline_job("c01-depth", &blocks::nonce_chain(spec, 3), &RunCfg::parallel(2), COARSE, 3, true));
+            v.extend(sweep_jobs("c01-sweep", 2, &[SpecId::BERLIN, SpecId::CANCUN, SpecId::PRAGUE], &[1, 2], &[false, true], 1, true));
+        }
+        Tier::Thorough => {
+            v.extend(sweep_jobs(
+                "c01-sweep",
+                3,
+                &[SpecId::BERLIN, SpecId::LONDON, SpecId::SHANGHAI, SpecId::CANCUN, SpecId::PRAGUE, SpecId::OSAKA],
+                &[1, 2, 3],
+                &[false, true],
+                1,
+                true,
+            ));
+            v.extend(sweep_jobs("c01-sweep2", 2, &[SpecId::CANCUN, SpecId::PRAGUE], &[2], &[false], 2, true));
         }
     }
     v
